@@ -231,7 +231,9 @@ class Plan:
         self.pid0_listed = False
         self.pid_exists = True
         self.os_exc = None
+        self.os_exc2 = None
         self.os_hits = 0
+        self.os_stat_hits = 0
 
 
 PLAN = Plan()
@@ -398,6 +400,12 @@ class OsProxy:
             path = path.decode()
         if isinstance(path, str) and (path.startswith(f"/proc/{PID}/") or path == f"/proc/{PID}"):
             PLAN.log.append("os." + name)
+            if name in ("stat", "lstat") and getattr(PLAN, "os_exc2", None) is not None:
+                # two-step fault: items vanish (first errno), then the
+                # follow-up "is the process still there" stat fails differently
+                PLAN.os_hits += 1
+                PLAN.os_stat_hits += 1
+                raise PLAN.os_exc2
             if PLAN.os_exc is not None:
                 PLAN.os_hits += 1
                 raise PLAN.os_exc
@@ -416,6 +424,11 @@ class OsProxy:
 
     def listdir(self, path="."):
         self._hit("listdir", path)
+        if path in ("/proc", b"/proc") and PLATFORM in ("sunos", "aix"):
+            # the process table of the impersonated system (pids() lists the
+            # procfs root there)
+            names = ["1", str(PID)] + (["0"] if PLAN.pid0_listed else [])
+            return [n.encode() for n in names] if isinstance(path, bytes) else names
         return self._real.listdir(path)
 
 
@@ -477,8 +490,17 @@ def strategy(tier):
         pid0_listed=st.booleans()))
     procfs_case = st.fixed_dictionaries(dict(
         kind=st.just("procfs-fault"), method=st.integers(0, 60), err=st.sampled_from(ERRNOS),
+        # second errno, raised by stat()/lstat() of /proc/<pid>[/...] only
+        # (items vanish with ENOENT, then the liveness check fails otherwise)
+        err2=st.one_of(st.none(), st.none(), st.sampled_from(ERRNOS)),
         zombie=st.booleans(), cached_name=st.sampled_from([None, "cached-name"])))
     extra = [procfs_case, procfs_case] if PLATFORM in ("netbsd", "sunos", "aix") else []
+    if PLATFORM in ("sunos", "aix"):
+        two_step_case = st.fixed_dictionaries(dict(
+            kind=st.just("procfs-fault"), method=st.integers(0, 60), err=st.just("ENOENT"),
+            err2=st.sampled_from(ERRNOS), zombie=st.booleans(),
+            cached_name=st.sampled_from([None, "cached-name"])))
+        extra += [two_step_case, two_step_case]
     return st.one_of(
         *extra,
         fault_case, fault_case, fault_case, fault_case,
@@ -548,6 +570,9 @@ def run_child_case(case):
             restore.append((PX, "pid_exists", PX.pid_exists))
             restore.append((plat, "pid_exists", plat.pid_exists))
             plat.pid_exists = lambda p_: PLAN.pid_exists
+            # pids() lists the procfs root there: the impersonated table
+            restore.append((plat, "pids", plat.pids))
+            plat.pids = lambda: [0, 1, PID] if PLAN.pid0_listed else [1, PID]
         if PLATFORM == "aix":
             restore.append((plat, "pid_exists", plat.pid_exists))
             plat.pid_exists = lambda p_: PLAN.pid_exists
@@ -613,9 +638,13 @@ def run_child_case(case):
             return Result([f"{PLATFORM}:access-denied"], f"{PLATFORM}|{m}|{err}|AccessDenied")
         # any other error propagates unchanged
         pid0_exists = PLAN.pid0_listed or PLATFORM == "openbsd"   # OpenBSD always lists PID 0
-        if pid == 0 and PLATFORM in ("freebsd", "openbsd", "netbsd", "sunos") and pid0_exists \
-                and type(e).__name__ == "AccessDenied":
-            return Result([f"{PLATFORM}:pid0-exemption"], f"{PLATFORM}|{m}|{err}|pid0-AccessDenied")
+        if pid == 0 and PLATFORM in ("freebsd", "openbsd", "netbsd", "sunos") and pid0_exists:
+            # the documented exception: an unexplained OS error on the
+            # existing PID 0 is reported as AccessDenied
+            if type(e).__name__ == "AccessDenied":
+                return Result([f"{PLATFORM}:pid0-exemption"], f"{PLATFORM}|{m}|{err}|pid0-AccessDenied")
+            if not (PLATFORM == "netbsd" and m == "cmdline" and err == "EINVAL") and e is PLAN.exc:
+                raise Violation("pid0-contract", f"{desc}: PID 0 is listed, raised {e!r}, expected AccessDenied")
         if PLATFORM == "netbsd" and m == "cmdline" and err == "EINVAL":
             return Result(["netbsd:cmdline-einval-workaround"], None)
         if PLATFORM == "windows" and err == 299 and type(e).__name__ == "AccessDenied":
@@ -636,6 +665,13 @@ def run_child_case(case):
         nsp_class = err in ("ESRCH", "ENOENT")
         PLAN.pid_exists = PLAN.zombie or not nsp_class
         PLAN.os_exc = make_oserror(err)
+        err2 = case.get("err2")
+        two_step = err2 is not None and err == "ENOENT" and PLATFORM in ("sunos", "aix")
+        if two_step:
+            # only items of the process vanish; the process itself is still
+            # listed, and the liveness stat() fails with the second errno
+            PLAN.os_exc2 = make_oserror(err2)
+            PLAN.pid_exists = True
         proc = plat.Process(PID)
         proc._name = case["cached_name"]
         saved_os = plat.os
@@ -663,8 +699,16 @@ def run_child_case(case):
             return Result([f"{PLATFORM}:procfs-fault-swallowed"], f"{PLATFORM}|{m}|procfs:{err}|value")
         e = out[1]
         cls = type(e).__name__
+        if two_step:
+            desc += f"; items vanish with ENOENT, stat() of /proc/<pid> fails with {err2}, the PID stays listed"
+            if cls == "NoSuchProcess":
+                raise Violation("procfs-nsp-contract", f"{desc}: raised {e!r} for a process that is still listed")
+            if PLAN.os_stat_hits and (e is PLAN.os_exc2 or getattr(e, "__cause__", None) is PLAN.os_exc2):
+                # the failure that ended the call is the second one
+                err = err2
+                nsp_class = err in ("ESRCH", "ENOENT")
         if nsp_class:
-            want = "ZombieProcess" if PLAN.zombie else "NoSuchProcess"
+            want = "ZombieProcess" if (PLAN.zombie or two_step) else "NoSuchProcess"
             if cls != want:
                 raise Violation("procfs-nsp-contract", f"{desc}: raised {e!r}, expected {want}")
         elif err in ("EPERM", "EACCES"):
